@@ -66,7 +66,9 @@ def judge(acc, case, prog, cfg, rng):
     acc.count("sent_checked", len(rec["sent"]))
     # primal never exceeds dual by more than tolerance
     cf, cinfo = oracles.certificate_check(rec, case.outcome[1], cfg.get("mode", "dual"))
-    prim = rec["inner"][-1]["value"]
+    # the primal optimum is the value of the FIRST solver run; what a dimension-reduction run returns afterwards is only
+    # promised to lie in [optimum - tol, optimum] (C14 judges that band, with the scale of the heuristic solution)
+    prim = rec["inner"][0]["value"]
     tau = cinfo.get("tau_identity")
     cert_ok = not any(f["grade"] == "violated" for f in cf)
     if prim is not None and tau is not None and cert_ok:
